@@ -190,8 +190,8 @@ Proof.
                   consecb es && match es with [] => true | e0 :: _ => eidx e0 =? pidx + 1 end
                 | AE _ _ None _ => true
                 | _ => false end) (chan_get 1 2 g3) = true) by (vm_compute; reflexivity).
-  intros m Hm. rewrite forallb_forall in H. specialize (H m Hm).
-  destruct m as [| |t c [[pidx pterm]|] es| | | | |]; try discriminate; [|exact I].
+  intros m Hm. rewrite forallb_forall in H. specialize (H m Hm). clear Hm. cbv beta in H.
+  destruct m as [| |t c [[pidx pterm]|] es| | | | |]; try discriminate H; [|exact I].
   apply andb_prop in H. destruct H as [H1 H2]. split; [now apply consecb_ok|].
   intros Hne. destruct es; [contradiction|]. now apply N.eqb_eq in H2.
 Qed.
@@ -202,3 +202,26 @@ Example get_entries_example :
   consec l /\ first_idx l <= 3 /\
   map eidx (get_entries l (Some 3) (Some 2) None) = [3; 4] /\ map eidx l = [1; 2; 3; 4].
 Proof. split; [apply consecb_ok; vm_compute; reflexivity|]. vm_compute. repeat split; discriminate. Qed.
+
+(* C04_applied_monotone: a received complete snapshot that is behind the node's position (index 2;
+   node 1 of g3 has applied 3) is not installed: applied stays, a fresh compaction is requested *)
+Definition old_snap : snapshot :=
+  mkSnap [] 0 (mkEntry (noop_cmd 10) 2 1) (mkEntry (noop_cmd 10) 1 0) [1; 2; 3] 50.
+Example behind_snapshot_not_installed :
+  let n := (node_of 1 g3) in
+  let n' := nd (on_message (mk_env xc 300 0 DEFAULT_BUDGET [] 0) 2
+                           (AESnap 1 3 (SData (Good old_snap) 0 50 true true)) n) in
+  applied n = 3 /\ applied n' = 3 /\ log n' = log n /\ force_compact n' = true.
+Proof. vm_compute. repeat split; reflexivity. Qed.
+
+(* the condition on the first tick (restart path) cannot be dropped: a node that has not ticked yet,
+   has applied 3 and holds a dump file at index 2 goes back to 2 (state-level witness) *)
+Definition xf : conf := mkConf 10 100 50 300 1000 1000 true true true 100 1000 100 10 true false.
+Definition other_snap : snapshot :=
+  mkSnap [] 0 (mkEntry (noop_cmd 10) 2 7) (mkEntry (noop_cmd 10) 1 7) [1; 2; 3] 50.
+Definition restart_node : node :=
+  (node_of 1 g3) <| need_load := true |> <| sr := mkSer 0 0 (Some (Good other_snap)) [] None |>.
+Example snap_ahead_tick_needed :
+  applied restart_node = 3 /\
+  applied (nd (on_tick (mk_env xf 300 0 30 [] 0) restart_node)) = 2.
+Proof. vm_compute. split; reflexivity. Qed.
